@@ -30,6 +30,7 @@ func TakeRuntimeContext() *RuntimeContext {
 }
 
 func ReleaseRuntimeContext(ctx *RuntimeContext) {
+	verifPoisonCtx(ctx)
 	runtimeContextPool.Put(ctx)
 }
 
